@@ -129,6 +129,30 @@ type rsWorld struct {
 	Mem trMem     `json:"mem"`
 	// concretisation hint (canary-style worlds, podTemplateHash ""): a canary Deployment exists but has no ReplicaSet yet
 	BareCanary bool `json:"bareCanary,omitempty"`
+	// concretisation hint (canary strategy): spec.strategy.canary.patchPodTemplateMetadata of the Rollout - "" (absent), "labels",
+	// "annotations", "both", "empty". A BatchRelease whose other spec fields match (specOther) carries the same patch AS AN API
+	// SERVER STORES IT (empty maps are dropped by the JSON round trip). Invisible to the model: it only has to be copied faithfully.
+	PatchMeta string `json:"patchMeta,omitempty"`
+}
+
+// rsPatchMeta: the hint of the world being concretised (set by rsRunF around the builders)
+var rsPatchMeta string
+
+func rsPatchOf(kind string, stored bool) *v1beta1.PatchPodTemplateMetadata {
+	switch kind {
+	case "labels":
+		return &v1beta1.PatchPodTemplateMetadata{Labels: map[string]string{"track": "canary"}}
+	case "annotations":
+		return &v1beta1.PatchPodTemplateMetadata{Annotations: map[string]string{"note": "canary"}}
+	case "both":
+		return &v1beta1.PatchPodTemplateMetadata{Labels: map[string]string{"track": "canary"}, Annotations: map[string]string{"note": "canary"}}
+	case "empty":
+		if stored {
+			return &v1beta1.PatchPodTemplateMetadata{}
+		}
+		return &v1beta1.PatchPodTemplateMetadata{Labels: map[string]string{}, Annotations: map[string]string{}}
+	}
+	return nil
 }
 
 const (
@@ -195,7 +219,7 @@ func rsBuildRollout(r rsRollout) (*v1beta1.Rollout, string) {
 		ro.Spec.Strategy.BlueGreen = &v1beta1.BlueGreenStrategy{Steps: rsSteps(r.Steps), TrafficRoutings: trs, DisableGenerateCanaryService: r.DisableGen}
 	} else {
 		ro.Spec.Strategy.Canary = &v1beta1.CanaryStrategy{Steps: rsSteps(r.Steps), TrafficRoutings: trs, DisableGenerateCanaryService: r.DisableGen,
-			EnableExtraWorkloadForCanary: rsdCanaryStyle(r)}
+			EnableExtraWorkloadForCanary: rsdCanaryStyle(r), PatchPodTemplateMetadata: rsPatchOf(rsPatchMeta, false)}
 	}
 	ro.Spec.Strategy.Paused = r.Paused
 	ro.Spec.Disabled = r.Disabled
@@ -338,6 +362,8 @@ func rsBuildBR(b *rsBR, ro *v1beta1.Rollout) *v1beta1.BatchRelease {
 	if !b.SpecOther {
 		ft := *iosFromAny(J{"i": 1})
 		br.Spec.ReleasePlan.FailureThreshold = &ft
+	} else if ro.Spec.Strategy.Canary != nil {
+		br.Spec.ReleasePlan.PatchPodTemplateMetadata = rsPatchOf(rsPatchMeta, true)
 	}
 	if b.RollbackAnno {
 		br.Annotations = map[string]string{v1alpha1.RollbackInBatchAnnotation: "true"}
@@ -384,9 +410,33 @@ func rsAbstractBR(br *v1beta1.BatchRelease, ro *v1beta1.Rollout) *rsBR {
 		b.Partition = &p
 	}
 	b.SpecOther = br.Spec.ReleasePlan.FailureThreshold == nil && br.Spec.ReleasePlan.RollingStyle == ro.Spec.Strategy.GetRollingStyle() &&
-		br.Spec.ReleasePlan.EnableExtraWorkloadForCanary == rsExtraWorkload(ro) && br.Spec.ReleasePlan.PatchPodTemplateMetadata == nil &&
+		br.Spec.ReleasePlan.EnableExtraWorkloadForCanary == rsExtraWorkload(ro) && rsPatchStoredEq(br.Spec.ReleasePlan.PatchPodTemplateMetadata, ro) &&
 		br.Spec.WorkloadRef == v1beta1.ObjectRef{APIVersion: ro.Spec.WorkloadRef.APIVersion, Kind: ro.Spec.WorkloadRef.Kind, Name: "wl"}
 	return b
+}
+
+// rsPatchStoredEq: the BatchRelease's pod-template patch is the Rollout's, as stored (nil and empty maps are the same thing
+// after the JSON round trip of an API server)
+func rsPatchStoredEq(p *v1beta1.PatchPodTemplateMetadata, ro *v1beta1.Rollout) bool {
+	var q *v1beta1.PatchPodTemplateMetadata
+	if ro.Spec.Strategy.Canary != nil {
+		q = ro.Spec.Strategy.Canary.PatchPodTemplateMetadata
+	}
+	if p == nil || q == nil {
+		return p == nil && q == nil
+	}
+	eq := func(a, b map[string]string) bool {
+		if len(a) != len(b) {
+			return false
+		}
+		for k, v := range a {
+			if w, ok := b[k]; !ok || w != v {
+				return false
+			}
+		}
+		return true
+	}
+	return eq(p.Labels, q.Labels) && eq(p.Annotations, q.Annotations)
 }
 
 // what createBatchRelease copies into spec.releasePlan.enableExtraWorkloadForCanary
@@ -474,6 +524,8 @@ func rsRun(in0 rsWorld) interface{} {
 // Returns the usual output, the number of API calls the reconcile made, the failed call ("" if none) and its writes.
 func rsRunF(in0 rsWorld, failN int) (J, int, string, []string) {
 	in := rsdConcretise(in0) // canary-style worlds: revision names become the pod-template hashes the finder reports
+	rsPatchMeta = in0.PatchMeta
+	defer func() { rsPatchMeta = "" }()
 	ro, hash := rsBuildRollout(in.Ro)
 	objs := []client.Object{ro}
 	if in.WL != nil {
@@ -529,12 +581,15 @@ func rsRunF(in0 rsWorld, failN int) (J, int, string, []string) {
 	rsdAbstractWorld(in.Ro, w)
 	out["w"] = w
 	var writes []string
+	brWritten := false
 	for _, r := range netCli.Log {
 		if r.Err {
 			continue
 		}
 		writes = append(writes, r.Verb+" "+r.Kind+" "+r.Key)
+		brWritten = brWritten || r.Kind == "BatchRelease"
 	}
+	out["brWritten"] = brWritten
 	grace.ResetExpectations()
 	return out, calls, hit, writes
 }
@@ -833,6 +888,9 @@ func genRolloutWorld(c *Ctx) rsWorld {
 func runRolloutSM(c *Ctx) {
 	for i := 0; i < c.N; i++ {
 		w := genRolloutWorld(c)
+		if w.Ro.Style != "blueGreen" && c.Rng.Intn(4) == 0 {
+			w.PatchMeta = pickS(c, "labels", "annotations", "both", "empty")
+		}
 		rsCase(c, w)
 		if i%6 == 0 {
 			rsFaults(c, w, c.Thorough() && i%30 == 0)
